@@ -253,6 +253,9 @@ def run(prog, rep):
     rep.note("sibling difference: terminology.cache_load catches Exception around the fetch and returns None; templates.cache_load catches "
              "(ValueError, URLError), re-raises, and TemplateHandler._load turns that into None")
     from ..report import import_verdicts
+    import_verdicts(prog, rep, "C16", ("KIND-1", "LIB-1"), "PARSE-4",
+                    "load(url) returns None for a resource that cannot be parsed: XMLReader.from_file, which the loaders call with an open cache "
+                    "file, turns every syntax error into ParserException - also when its source is a file object and not a path")
     import_verdicts(prog, rep, "C12", ("CACHE-2",), "CACHE-2",
                     "load(url) returns the document of that url: the cache file is named by a digest of the whole URL, so two resources with the "
                     "same last path component do not serve each other's content")
